@@ -484,6 +484,72 @@ def r4_builtin_tables(ctx, sym):
     ctx.ok('R4', 'table-sweep', sample={'entries': n, 'shorthands': sorted(shorthands)})
 
 
+def r4d_builtin_definitions_total(ctx, sym):
+    ctx.rule('R4d', "every *_definition function of pedal.types.builtin (the typing rules of round, sum, ... - called "
+                    "while TIFA visits a call) executed abstractly on arguments of pedal's own plain types (float, "
+                    "int, str, list[int]; no, one and two arguments): none raises - an AttributeError there turns an "
+                    "ordinary beginner program into one TIFA 'could not process'")
+    from .. import symexec
+    from ..fdeval import Obj, Raised, Inconclusive
+    bmod = ctx.repo.module('pedal.types.builtin')
+    tmod = ctx.repo.module('pedal.types.new_types')
+
+    def class_of(o):
+        cd = o.attrs.get('__classdef__')
+        return sym.classes.get((cd._module.name, cd._qualname)) if cd is not None else None
+
+    def b_type(o):
+        return o.attrs['__classdef__'] if isinstance(o, Obj) and '__classdef__' in o.attrs else type(o)
+
+    def b_isinstance(o, t):
+        ts = t if isinstance(t, tuple) else (t,)
+        if isinstance(o, Obj) and '__classdef__' in o.attrs:
+            mro = list(sym.mro(class_of(o)))
+            return any(getattr(x, '_fd_class', None) is not None and
+                       any(getattr(k, 'node', None) is x._fd_class for k in mro) for x in ts)
+        return any(isinstance(x, type) and isinstance(o, x) for x in ts)
+
+    def build(expr):
+        f = ast.parse("def _expression():\n    return %s" % expr).body[0]
+        f._module, f._qualname = tmod, '_expression'
+        return symexec.new_fd(sym, tmod, calls={'isinstance': b_isinstance, 'type': b_type}).call_function(f, [])
+    argsets = {'()': [], '(float)': ['FloatType()'], '(int)': ['IntType()'], '(float, int)': ['FloatType()', 'IntType()'],
+               '(int, int)': ['IntType()', 'IntType()'], '(str)': ['StrType(False)'],
+               '(list[int])': ['ListType(False, IntType())']}
+    n = 0
+    for q in sorted(bmod.functions):
+        if not q.endswith('_definition') or '.' in q:
+            continue
+        fn = bmod.func(q)
+        ctx.analysed_function(bmod, fn)
+        for tag, exprs in argsets.items():
+            for named in ({}, {'ndigits': 'IntType()', 'key': 'IntType()'}):
+                try:
+                    args = [build(e) for e in exprs]
+                    kw = {k: build(e) for k, e in named.items()}
+                except (Raised, Inconclusive) as e:
+                    raise AnalysisError("C18 R4d: model arguments cannot be built: %s" % e)
+                tifa = Obj('tifa', __open__=True)
+                tifa.attrs['__unknown_method__'] = lambda name, *a, **k: Obj('tifa-result', __open__=True)
+                fd = symexec.new_fd(sym, bmod, calls={'isinstance': b_isinstance, 'type': b_type})
+                try:
+                    fd.call_function(fn, [tifa, Obj('function', __open__=True), Obj('callee', __open__=True), args, kw,
+                                          Obj('Location')])
+                    raised = None
+                except Raised as e:
+                    raised = e
+                except Inconclusive:
+                    continue
+                n += 1
+                ctx.check(raised is None, 'R4d', '%s%s%s' % (q, tag, ' with keywords' if named else ''), bmod, fn,
+                          "%s applied to arguments of types %s%s raises %s (%s)" % (
+                              q, tag, ' and keyword arguments' if named else '',
+                              raised.kind if raised is not None else '', raised.detail if raised is not None else ''),
+                          "average = total / count; print(round(average, 2)) - TIFA reports that it could not process "
+                          "the program")
+    ctx.floor('R4d', 'definition x argument cells decided', n, 30)
+
+
 def r5_determinism(ctx, sym):
     ctx.rule('R5', "no iteration over a set/frozenset expression, random, id() or hash() ordering reaches an _issue "
                    "call in pedal/tifa and pedal/types")
@@ -717,6 +783,7 @@ def run(ctx):
     r3_resolution(ctx, sym)
     r1d_container_literals(ctx, sym)    # after R3: an unresolved name is R3's finding, not an undecidable visitor
     r4_builtin_tables(ctx, sym)
+    r4d_builtin_definitions_total(ctx, sym)
     r5_determinism(ctx, sym)
     ctx.assume("'completes for every introductory program' is decided only through resolution completeness and the "
                "builtin tables; issue lines lying within the source follow from locate() using the node's own lineno")
